@@ -1218,6 +1218,147 @@ def check_continuous(case):
                 parts=dict(sharp=worst, quadrature=quad, end=endfrac))
 
 
+# ------------------------------------------------------------------ requests that start later than the orbit's date
+
+
+@st.composite
+def late_case(draw):
+    hyp = draw(st.integers(0, 9)) == 0
+    el = draw(go.elements(elliptic=not hyp, hyperbolic=hyp, emax_ell=0.9, rp_range=(1.03, 8.0), hmax=1.5, emax_hyp=4.0))
+    h_us = draw(st.integers(30, 120)) * 10**6
+    n = draw(st.integers(24, 40))
+    k = draw(st.integers(1, n - 4))                       # the request starts in step k
+    on_grid = draw(st.integers(0, 9)) < 6
+    frac = 0.0 if on_grid else draw(go.uniform(0.02, 0.98))
+    mans = []
+    if draw(st.booleans()):
+        # one burn; on-grid requests may start before, inside or after it
+        b0 = draw(st.integers(1, n - 6))
+        bl = draw(st.integers(2, 10))
+        start = b0 * h_us + (0 if draw(st.booleans()) else draw(go.uniform_int(0, h_us - 1)))
+        dur = bl * h_us + (0 if draw(st.booleans()) else draw(go.uniform_int(0, h_us - 1)))
+        mans.append(dict(kind="cont", start=start, dur=dur, dv=draw(vec3(-2.0, 1.5)), tag=draw(st.sampled_from(TAGS)),
+                         date_pos=draw(st.sampled_from(["start", "median", "stop"])), mode=draw(st.sampled_from(["dv", "accel"]))))
+    else:
+        for _ in range(draw(st.integers(1, 2))):
+            mans.append(dict(kind="imp", t=draw(instant(h_us, 1, n * h_us - 1)), dv=draw(vec3(-2.0, 1.5)),
+                             tag=draw(st.sampled_from(TAGS))))
+    return dict(el=el, h_us=h_us, n=n, k=k, frac=frac, mans=mans, t0=draw(epochs(n * h_us)),
+                how=draw(st.sampled_from(["iter", "iter", "ephem", "propagate"])))
+
+
+def check_late(case):
+    """The same propagation asked from a later start (iter / ephem(start=...), propagate(date)) gives the states of
+    the run from the orbit's own date: exactly when the start is on the integration grid, to the accuracy of the
+    integrator when it is between two grid points."""
+    from beyond.dates import timedelta
+    from beyond.env.solarsystem import get_body
+    from beyond.orbits import Orbit
+    from beyond.orbits.man import ContinuousMan, ImpulsiveMan
+    from beyond.propagators.keplernum import KeplerNum
+
+    mu = mu_earth()
+    el = case["el"]
+    c0 = cart(el, mu)
+    d0 = mkdate(case["t0"])
+    h_us, n, k = case["h_us"], case["n"], case["k"]
+    h = h_us / 1e6
+    cap = dv_cap(c0, n * h, mu)
+    tot = sum(float(np.linalg.norm(m["dv"])) for m in case["mans"])
+    scale = min(1.0, cap / tot)
+
+    def build():
+        out = []
+        for m in case["mans"]:
+            dv = [x * scale for x in m["dv"]]
+            if m["kind"] == "imp":
+                out.append(ImpulsiveMan(d0 + timedelta(microseconds=m["t"]), dv, frame=m["tag"]))
+            else:
+                dur = m["dur"] + (m["dur"] % 2 if m["date_pos"] == "median" else 0)
+                shift = {"start": 0, "median": dur // 2, "stop": dur}[m["date_pos"]]
+                kw = dict(dv=dv) if m["mode"] == "dv" else dict(accel=[x / (dur / 1e6) for x in dv])
+                out.append(ContinuousMan(d0 + timedelta(microseconds=m["start"] + shift), timedelta(microseconds=dur),
+                                         frame=m["tag"], date_pos=m["date_pos"], **kw))
+        return out
+
+    ys = run_library(c0, d0, h_us, n, build())             # the run from the orbit's own date (other facets decide it)
+    s_us = k * h_us + int(case["frac"] * h_us)
+    on_grid = s_us % h_us == 0
+    S = d0 + timedelta(microseconds=s_us)
+    E = d0 + timedelta(microseconds=n * h_us)
+    orb = Orbit(c0, d0, "cartesian", "EME2000", KeplerNum(timedelta(microseconds=h_us), get_body("Earth"), method="rk4"))
+    orb.maneuvers = build()
+    how = case["how"]
+    if how == "ephem" and (n - k < 10 or not on_grid):
+        how = "iter"        # re-sampling a span shorter than 8 steps is refused (known finding C08/keplernum-short-span)
+    if how == "propagate":
+        pts = [orb.propagate(S)]
+    elif how == "ephem":
+        pts = list(orb.ephem(start=S, stop=E, step=timedelta(microseconds=h_us)))
+    else:
+        pts = list(orb.iter(start=S, stop=E))
+    got = [np.array(o.copy(form="cartesian").base, float) for o in pts]
+    if not got or abs((pts[0].date - S).total_seconds()) > 1e-6:
+        raise Violation("late-start-date", f"{how} from {s_us / 1e6} s: first point dated {(pts[0].date - d0).total_seconds() if pts else None} s")
+    # distance (in steps) from the start to the nearest discontinuity: impulse date / grid point that applies it, burn edge
+    edges = []
+    for m in case["mans"]:
+        if m["kind"] == "imp":
+            edges += [m["t"], -(-m["t"] // h_us) * h_us]
+        else:
+            edges += [m["start"], m["start"] + m["dur"]]
+    near = min(abs(e - s_us) for e in edges) / h_us
+    in_burn = any(m["kind"] == "cont" and m["start"] - h_us < s_us < m["start"] + m["dur"] + h_us for m in case["mans"])
+    rn, vn = float(np.linalg.norm(ys[k][:3])), float(np.linalg.norm(ys[k][3:]))
+    if on_grid:
+        ref = [ys[j] for j in range(k, n + 1)]
+        ptol, vtol = 1e-9 * rn, 1e-9 * vn
+        m = min(len(ref), len(got))
+        if how != "propagate" and len(got) != len(ref):
+            raise Violation("late-start-length", f"{how} from step {k}: {len(got)} points, {len(ref)} expected")
+    else:
+        if in_burn:
+            return dict(nt=False, cls=["skipped:off-grid-start-inside-a-burn"], ratio=0.0)
+        # between two grid points: the free arc from the grid point before (no impulse is dated in between by
+        # construction of `near` below), to within the integrator's own error over one step
+        if any(mm["kind"] == "imp" and k * h_us < mm["t"] <= (k + 1) * h_us for mm in case["mans"]):
+            return dict(nt=False, cls=["skipped:impulse-dated-in-the-start-step"], ratio=0.0)
+        lte = np.asarray(ig.rk4_step(ys[k], h, mu)) - tb.propagate_uv(ys[k], h, mu)
+        ref = [tb.propagate_uv(ys[k], (s_us - k * h_us) / 1e6, mu)]
+        ptol = 20 * float(np.linalg.norm(lte[:3])) + 1e-9 * rn
+        vtol = 20 * float(np.linalg.norm(lte[3:])) + 1e-9 * vn
+        m = 1
+    worst = 0.0
+    for j in range(m):
+        dp = float(np.linalg.norm(got[j][:3] - ref[j][:3]))
+        dv = float(np.linalg.norm(got[j][3:] - ref[j][3:]))
+        worst = max(worst, dp / ptol, dv / vtol)
+        if dp > ptol or dv > vtol:
+            raise Violation("late-start-state",
+                            f"{how} asked from {s_us / 1e6} s ({'on' if on_grid else 'off'} the grid of step {h} s), point {j}: "
+                            f"{dp:.6g} m, {dv:.6g} m/s away from the run started at the orbit's date (allowed {ptol:.3g} m, "
+                            f"{vtol:.3g} m/s); maneuvers: " + "; ".join(
+                                (f"impulse at {mm['t'] / 1e6} s" if mm["kind"] == "imp" else
+                                 f"burn [{mm['start'] / 1e6}, {(mm['start'] + mm['dur']) / 1e6}) s dated by its {mm['date_pos']}")
+                                for mm in case["mans"]),
+                            on_grid=on_grid, near=near, point=j)
+    cls = el_classes(el) + [f"how:{how}", "start:on-grid" if on_grid else "start:off-grid"]
+    for mm in case["mans"]:
+        if mm["kind"] == "cont":
+            rel = "before" if s_us <= mm["start"] else "after" if s_us >= mm["start"] + mm["dur"] else "inside"
+            cls += [f"date_pos:{mm['date_pos']}", f"start-{rel}-burn"]
+        else:
+            cls.append("start-before-impulse" if s_us < mm["t"] else "start-after-impulse")
+    return dict(nt=True, cls=cls, ratio=worst)
+
+
+def _late_finding(facet, case, kind, msg, data):
+    """off-grid start within 8 steps of a discontinuity: the start state is interpolated (Lagrange, 8 points) through
+    the look-ahead steps, across the velocity jump / thrust edge"""
+    return (facet == "late_start" and kind == "late-start-state" and data.get("on_grid") is False
+            and data.get("point") == 0 and data.get("near", 99) <= 8.0)
+
+
 # ------------------------------------------------------------------ continuous burns under the other methods
 
 
@@ -1231,7 +1372,8 @@ def cont_methods_case(draw):
     n = -(-(start + dur) // h_us) + 3
     return dict(el=el, h_us=h_us, n=n, start=start, dur=dur, t0=draw(epochs(n * h_us)), dv=draw(vec3(-2.0, 2.0)),
                 tag=draw(st.sampled_from(TAGS)), mode=draw(st.sampled_from(["dv", "accel"])),
-                method=draw(st.sampled_from(["euler", "rkf54", "dopri54"])))
+                method=draw(st.sampled_from(["euler", "rkf54", "dopri54"])),
+                date_pos=draw(st.sampled_from(["start", "median", "stop"])))
 
 
 def check_cont_methods(case):
@@ -1256,10 +1398,17 @@ def check_cont_methods(case):
         dvv = dvv * cap / float(np.linalg.norm(dvv))
     acc = dvv / secs
     amag = float(np.linalg.norm(acc))
-    date = d0 + timedelta(microseconds=case["start"])
-    dur = timedelta(microseconds=case["dur"])
-    man = (ContinuousMan(date, dur, dv=list(dvv), frame=case["tag"]) if case["mode"] == "dv"
-           else ContinuousMan(date, dur, accel=list(acc), frame=case["tag"]))
+    # the same physical burn, dated by its start, its middle or its end
+    dpos = case.get("date_pos", "start")
+    dur_us = case["dur"] + (case["dur"] % 2 if dpos == "median" else 0)
+    stop = (case["start"] + dur_us) / 1e6
+    secs = dur_us / 1e6
+    acc = dvv / secs
+    amag = float(np.linalg.norm(acc))
+    date = d0 + timedelta(microseconds=case["start"] + {"start": 0, "median": dur_us // 2, "stop": dur_us}[dpos])
+    dur = timedelta(microseconds=dur_us)
+    man = (ContinuousMan(date, dur, dv=list(dvv), frame=case["tag"], date_pos=dpos) if case["mode"] == "dv"
+           else ContinuousMan(date, dur, accel=list(acc), frame=case["tag"], date_pos=dpos))
     orb = Orbit(c0, d0, "cartesian", "EME2000", KeplerNum(timedelta(microseconds=h_us), get_body("Earth"), method=method))
     orb.maneuvers = man
     kw = {} if method == "euler" else dict(real_steps=True)
@@ -1312,7 +1461,7 @@ def check_cont_methods(case):
         raise Violation("burn-total", f"{method}: burn of {secs} s delivered {delivered!r} m/s, stated {total!r} m/s "
                         f"(allowance {tol:.3g})", delivered=delivered, stated=total)
     hs = np.diff(ts)
-    cls = el_classes(el) + [method, f"tag:{case['tag']}", case["mode"]]
+    cls = el_classes(el) + [method, f"tag:{case['tag']}", case["mode"], f"date_pos:{dpos}"]
     if method != "euler":
         cls.append("step-reduced" if float(np.min(hs[:-1])) < 0.99 * h_us / 1e6 else "step-as-requested")
     return dict(nt=True, cls=cls, ratio=worst, parts=dict(sharp=worst, quadrature=d / (amag * hmax)))
@@ -1438,6 +1587,8 @@ FACETS = [
     Facet("impulse_adaptive", lambda s, t: adaptive_case(), check_adaptive, setup=setup,
           rule="the error control actually reduced the requested step (class step-reduced)",
           quick=(8, 40), thorough=(16, 400)),
+    Facet("late_start", lambda s, t: late_case(), check_late, setup=setup,
+          rule="every case that is not skipped", quick=(8, 40), thorough=(16, 400)),
     Facet("continuous_methods", lambda s, t: cont_methods_case(), check_cont_methods, setup=setup,
           rule="every case (euler, rkf54, dopri54)", quick=(4, 40), thorough=(8, 400)),
     Facet("continuous_delivery", lambda s, t: continuous_case(), check_continuous, setup=setup,
@@ -1461,4 +1612,4 @@ def _fpa_finding(facet, case, kind, msg, data):
 
 
 # Only consulted for keys listed in KNOWN_FINDINGS.txt (scratch/fixes/C17-2.patch makes it unnecessary).
-FINDINGS = {"dkep-flight-path-angle": _fpa_finding}
+FINDINGS = {"dkep-flight-path-angle": _fpa_finding, "offgrid-start-interpolated-across-maneuver": _late_finding}
